@@ -155,7 +155,7 @@ func (s txSpec) String() string {
 
 var (
 	recipients = []string{"create", "pc1", "pc2", "pc3", "pc4", "pc5", "pc6", "pc7", "pc8", "fe", "admin", "eoa", "fresh", "store", "loop", "self"}
-	payloads   = []string{"empty", "b1", "b31", "b32", "b33", "b51", "b52", "z52", "kvprefix", "kvbad", "kv", "kvbigkey", "kvbigval", "set", "fail", "spin", "adminok", "adminbad"}
+	payloads   = []string{"empty", "b1", "b31", "b32", "b33", "b51", "b52", "z52", "h52", "kvprefix", "kvbad", "kv", "kvbigkey", "kvbigval", "set", "fail", "spin", "adminok", "adminbad"}
 	nonceOffs  = []int{-1, 0, 1}
 	gasLimits  = []string{"0", "1", "std", "max"}
 	gasPrices  = []string{"0", "1", "max"}
@@ -189,6 +189,10 @@ func payloadBytes(p string) []byte {
 		return pattern(52) // first word huge: AdminOP clamps the length
 	case "z52":
 		return make([]byte, 52) // first word 0: AdminOP's data slice would start after its end
+	case "h52":
+		b := make([]byte, 52) // first word 2^63: AdminOP's int conversion of the length goes negative
+		b[24] = 0x80
+		return b
 	case "kvprefix":
 		return append([]byte{}, rtypes.KVTxType...)
 	case "kvbad":
